@@ -447,7 +447,16 @@ def check_direction(r, model, kind, label, direction, x, ctx, params, g, case, c
             skews.append(abs((lp - l0()) - (l0() - lm)) / hh)
         return vals[0], vals[1], skews[0], skews[1]
 
-    def judge(what, name, analytic, d1, d2, sk1=None, sk2=None):
+    def central(apply, hh):
+        with torch.no_grad():
+            apply(+hh)
+            lp = float(functional(model, kind, direction, x, ctx, w, v))
+            apply(-hh)
+            lm = float(functional(model, kind, direction, x, ctx, w, v))
+            apply(0.0)
+        return (lp - lm) / (2 * hh)
+
+    def judge(what, name, analytic, d1, d2, sk1=None, sk2=None, refine=None):
         r.ev()
         r.count("fd_comparisons")
         scale = max(abs(d2), abs(analytic), 1e-6)
@@ -466,6 +475,7 @@ def check_direction(r, model, kind, label, direction, x, ctx, params, g, case, c
         if sk1 is not None and np.isfinite(sk2) and sk2 > 0.2 * RTOL * scale + 1e-9 and sk2 > 0.75 * sk1:
             r.count("kinks_inside_half_step")
             return "kink"
+        d2_raw = d2
         d2 = (4 * d2 - d1) / 3          # Richardson extrapolation: O(h^4) truncation error
         # UMNN: the forward value is a 20-30 point Clenshaw-Curtis quadrature of a ReLU network while autograd returns
         # the integrand itself (declared approximation, 5e-2 in DESIGN.md; 1e-1 for the input direction)
@@ -481,6 +491,30 @@ def check_direction(r, model, kind, label, direction, x, ctx, params, g, case, c
             # declared undecidable, and only when the comparison would otherwise fail.
             r.count("fd_below_resolution_undecided")
             return "kink"
+        if err > rtol and abs(analytic - d2) > 1e-8 and abs(d1 - d2_raw) > abs(analytic - d2) / 3:
+            # the two step sizes disagree with each other by as much as they disagree with autograd: the truncation error is not
+            # O(h^2) here (a jump of the SECOND derivative within h of the point - the quadratic spline is C1 only, and under a
+            # parameter perturbation its knots move across the fixed noise value - leaves an O(h) error that extrapolation cannot
+            # remove).  The finite difference decides nothing; a gradient that is really wrong is off by far more than the finite
+            # differences are from each other.
+            r.count("fd_self_inconsistent_undecided")
+            return "kink"
+        if err > rtol and abs(analytic - d2) > 1e-8 and refine is not None:
+            # last resort before a verdict: central differences at much smaller steps.  A finite difference converges to the true
+            # derivative as h -> 0 until rounding takes over (noise ~ eps * |L0| / h); the standard steps h, h/2 can both sit in a
+            # region that is not smooth on their scale (a knot of a C1 spline that the perturbation moves across a fixed value:
+            # observed 1e-3 ... 1e-5 relative at h = 1e-5, 4e-9 at h = 1e-7).  Autograd is accepted when a finer step whose noise
+            # floor is below the tolerance reproduces it; a wrong gradient is reproduced by no step.
+            for hf in (1e-6, 1e-7, 3e-8):
+                if 8 * 2.3e-16 * max(abs(l0()), 1.0) / hf > 0.3 * rtol * scale:
+                    break
+                try:
+                    df = refine(hf)
+                except Exception:
+                    break
+                if np.isfinite(df) and abs(analytic - df) <= rtol * max(abs(df), abs(analytic), 1e-6):
+                    r.count("fd_resolved_at_finer_step")
+                    return "ok"
         if err > rtol and abs(analytic - d2) > 1e-8:
             r.viol("wrong_gradient", "%s gradient differs from finite differences" % label, what=what, name=name,
                    autograd=analytic, finite_difference=d2, rel_err=err, **det)
@@ -558,7 +592,7 @@ def check_direction(r, model, kind, label, direction, x, ctx, params, g, case, c
         ap = ApplyParams({n for n, _ in params})
         d1, d2, sk1, sk2 = fd(ap)
         analytic = sum(float((grads[n] * U[n]).sum()) for n, _ in params if grads[n] is not None)
-        st = judge("all_params", "*", analytic, d1, d2, sk1, sk2)
+        st = judge("all_params", "*", analytic, d1, d2, sk1, sk2, refine=lambda hf: central(ap, hf))
         if st != "ok":
             return st
         # ---- per tensor: correct and, where it influences the result, present
@@ -575,7 +609,7 @@ def check_direction(r, model, kind, label, direction, x, ctx, params, g, case, c
                            name=n, finite_difference=d2, **det)
                     return "bad"
                 continue
-            st = judge("tensor", n, float((grads[n] * U[n]).sum()), d1, d2, sk1, sk2)
+            st = judge("tensor", n, float((grads[n] * U[n]).sum()), d1, d2, sk1, sk2, refine=lambda hf, n=n: central(ApplyParams({n}), hf))
             if st == "kink":
                 return st
             if st == "bad":
@@ -611,7 +645,14 @@ def check_direction(r, model, kind, label, direction, x, ctx, params, g, case, c
                        finite_difference=vals[1], **det)
                 return "bad"
             continue
-        st = judge(what, what, float((grad_t * Ux).sum()), vals[0], vals[1], skews[0], skews[1])
+        def refine_in(hf, what=what, Ux=Ux):
+            with torch.no_grad():
+                if what == "inputs":
+                    return (float(functional(model, kind, direction, x + hf * Ux, ctx, w, v)) -
+                            float(functional(model, kind, direction, x - hf * Ux, ctx, w, v))) / (2 * hf)
+                return (float(functional(model, kind, direction, x, ctx + hf * Ux, w, v)) -
+                        float(functional(model, kind, direction, x, ctx - hf * Ux, w, v))) / (2 * hf)
+        st = judge(what, what, float((grad_t * Ux).sum()), vals[0], vals[1], skews[0], skews[1], refine=refine_in)
         if st != "ok":
             return st
     return "ok"
